@@ -2,6 +2,7 @@ import Driver.Proto
 import Driver.Ledger
 import Driver.LedgerOracle
 import Driver.App
+import Driver.SflOracle
 open Driver
 
 def runLedger (c : Case) : Res :=
@@ -10,6 +11,9 @@ def runLedger (c : Case) : Res :=
   | some p =>
     let r := ledgerCompare p
     let os := ledgerOracles p.dflt p.init p.txs p.impls (p.implOutcome == "ok")
+    -- the C02 rule is only evaluated on complete runs (a failed run may end inside a window)
+    let os := if os.isEmpty && p.implOutcome == "ok" && r.tags.all (· != "near=1") then
+                sflOracle p.dflt p.init (alignedRows p.txs p.impls) else os
     if os.isEmpty then r
     else
       let props := String.intercalate "," (os.map (·.1)).eraseDups
